@@ -54,11 +54,11 @@ def cases(tier, seed):
             for t in tg:
                 out.append({"shape": shape, "model": model, "scale": float(scales[int(rng.integers(4))]), "target": float(t),
                             "seed": int(rng.integers(2**31)), "nsites": int(rng.integers(2, 5)),
-                            "history": bool(rng.random() < 0.5), "batch": bool(rng.random() < 0.3)})
+                            "history": bool(rng.random() < 0.5), "batch": bool(rng.random() < 0.3), "conserved": bool(rng.random() < 0.4)})
     # far beyond underflow (large trees): few cases
     for i in range(2 if tier == "quick" else 12):
         out.append({"shape": shapes[i % 3], "model": models[i % 4], "scale": 1.0, "target": -1000.0, "seed": int(rng.integers(2**31)),
-                    "nsites": 2, "history": False, "batch": False})
+                    "nsites": 2, "history": bool(i % 2), "batch": False, "conserved": bool(i % 2)})
     return out
 
 
@@ -90,6 +90,8 @@ def make(case, N):
     maj = drng.integers(0, 4, size=S)
     dev = drng.random((4096 * 2, S)) < 0.6
     alt = drng.integers(0, 4, size=(4096 * 2, S))
+    if case.get("conserved"):
+        dev[:, 0] = False  # one fully conserved column next to the variable ones: site likelihoods hundreds of orders of magnitude apart
     seqs = {}
     for i in range(N):
         seqs[names[i]] = "".join("ACGT"[alt[i, s] if dev[i, s] else maj[s]] for s in range(S))
